@@ -345,3 +345,60 @@ def only_guards(cfg, node, allowed):
         if not any(t == wt and match(wp, a) is not None for wp, wt in pats):
             return False
     return True
+
+
+def _single_defs(fnode):
+    """{local name: value expr} for names assigned exactly once in the
+    function by a plain `name = expr` (not in a loop target / with / aug)."""
+    counts, vals = {}, {}
+    for n in own_nodes(fnode):
+        tg = []
+        if isinstance(n, ast.Assign):
+            for t in n.targets:
+                for x in ast.walk(t):
+                    if isinstance(x, ast.Name):
+                        tg.append((x.id, n.value if isinstance(t, ast.Name)
+                                   else None))
+        elif isinstance(n, (ast.AugAssign, ast.AnnAssign)):
+            for x in ast.walk(n.target):
+                if isinstance(x, ast.Name):
+                    tg.append((x.id, None))
+        elif isinstance(n, (ast.For, ast.comprehension)):
+            for x in ast.walk(n.target):
+                if isinstance(x, ast.Name):
+                    tg.append((x.id, None))
+        elif isinstance(n, ast.With):
+            for it in n.items:
+                if it.optional_vars is not None:
+                    for x in ast.walk(it.optional_vars):
+                        if isinstance(x, ast.Name):
+                            tg.append((x.id, None))
+        elif isinstance(n, ast.ExceptHandler) and n.name:
+            tg.append((n.name, None))
+        for name, val in tg:
+            counts[name] = counts.get(name, 0) + 1
+            vals[name] = val
+    return {k: v for k, v in vals.items() if counts[k] == 1 and v is not None}
+
+
+def canon_expr(fnode, expr, depth=3):
+    """expr with single-definition locals replaced by their defining
+    expressions (so that facts are phrased over parameters, attributes and
+    calls and do not depend on the names of locals)."""
+    import copy as _copy
+    defs = _single_defs(fnode)
+
+    class T(ast.NodeTransformer):
+        def __init__(self, d):
+            self.d = d
+
+        def visit_Name(self, node):
+            if isinstance(node.ctx, ast.Load) and node.id in defs and \
+                    self.d > 0:
+                sub = T(self.d - 1).visit(_copy.deepcopy(defs[node.id]))
+                # keep the local's name when its definition is large: the
+                # fact would be unreadable and no more stable
+                if len(ast.unparse(sub)) <= 90:
+                    return sub
+            return node
+    return T(depth).visit(_copy.deepcopy(expr))
